@@ -47,10 +47,6 @@ def Spend.onLocalCommit : Spend → Bool
   | .funding | .toLocal | .htlcTimeoutTx | .htlcSuccessTx | .secondLevelOut => true
   | _ => false
 
-/-- SIGHASH flags -/
-def sigHashAll : Nat := 1
-def sigHashSingleAnyoneCanPay : Nat := 131     -- 0x83
-
 /-- `HtlcSigHashType`. -/
 def htlcSigHashType (ct : ChanType) : Nat :=
   if ct.anchors then sigHashSingleAnyoneCanPay else sigHashAll
@@ -122,13 +118,22 @@ def Close.signer (c : Close) (s : Spend) : Key :=
   | .htlcTimeoutTx | .htlcSuccessTx | .htlcTimeout | .htlcClaim => .single c.me roleHtlc
   | .toRemote => c.toRemoteKey false
 
-/-- The witness stack. `preimage` is what the resolver inserts for received HTLCs. -/
-def Close.witness (c : Close) (s : Spend) (preimage : Item) (flip : Bool := false) : List Item :=
-  let mine := Item.sig (c.signer s) sigHashAll true
-  let peerHtlc := Item.sig c.remoteHtlcKey (htlcSigHashType c.ct) true
+/-- What the peer's second-level HTLC signature was made over: the timeout
+    transaction with nLockTime = the HTLC's expiry, the success transaction with
+    nLockTime 0, input sequence `HtlcSecondLevelInputSequence`
+    (`genHtlcSigValidationJobs` verifies exactly that when the signature arrives). -/
+def Close.peerSigOver (c : Close) (s : Spend) (expiry : Nat) : SigOver :=
+  .presigned (if s == .htlcTimeoutTx then expiry else 0) (htlcSecondLevelSeq c.ct)
+
+/-- The witness stack. `preimage` is what the resolver inserts for received
+    HTLCs; `peerHashType` is the sighash flag of the peer's second-level signature. -/
+def Close.witnessWith (c : Close) (s : Spend) (expiry : Nat) (preimage : Item) (peerHashType : Nat)
+    (flip : Bool := false) : List Item :=
+  let mine := Item.sig (c.signer s) sigHashAll .final
+  let peerHtlc := Item.sig c.remoteHtlcKey peerHashType (c.peerSigOver s expiry)
   match s with
   | .funding =>
-    let theirs := Item.sig (c.fundingKey c.peer) sigHashAll true
+    let theirs := Item.sig (c.fundingKey c.peer) sigHashAll .final
     if flip then witMultiSig theirs mine else witMultiSig mine theirs
   | .toLocal | .secondLevelOut => witDelay mine
   | .htlcTimeoutTx => witSenderTimeout peerHtlc mine
@@ -138,6 +143,11 @@ def Close.witness (c : Close) (s : Spend) (preimage : Item) (flip : Bool := fals
   | .htlcTimeout => witRecvTimeout mine
   | .htlcClaim => witRedeem mine preimage
   | .anchor => [mine]
+
+/-- the witness with the peer's signature carrying `HtlcSigHashType` -/
+def Close.witness (c : Close) (s : Spend) (expiry : Nat) (preimage : Item) (flip : Bool := false) :
+    List Item :=
+  c.witnessWith s expiry preimage (htlcSigHashType c.ct) flip
 
 /-- sequence of the spending input -/
 def Close.sequence (c : Close) (s : Spend) : Nat :=
@@ -156,13 +166,22 @@ def Close.lockTime (c : Close) (s : Spend) (expiry : Nat) : Nat :=
   | .toLocal | .secondLevelOut | .toRemote => if c.hasCltv then c.leaseExpiry else c.height
   | _ => c.height
 
-def Close.ctx (c : Close) (s : Spend) (expiry : Nat) : Ctx :=
-  { version := 2, sequence := c.sequence s, lockTime := c.lockTime s expiry, tapscript := false }
+/-- `agg` = the sweeper put the (anchor-type) second-level input into a
+    transaction with further inputs / outputs (`HtlcSecondLevelAnchorInput`). -/
+def Close.ctx (c : Close) (s : Spend) (expiry : Nat) (agg : Bool := false) : Ctx :=
+  { version := 2, sequence := c.sequence s, lockTime := c.lockTime s expiry, tapscript := false,
+    aggregated := agg }
+
+/-- the same transaction offered to a block at `height`, `age` blocks after the
+    spent output confirmed -/
+def Close.ctxAt (c : Close) (s : Spend) (expiry : Nat) (agg : Bool) (height age : Nat) : Ctx :=
+  { c.ctx s expiry agg with blockHeight := height, inputAge := age }
 
 /-- Verdict of the symbolic interpreter for spend `s` of an HTLC with CLTV
     expiry `expiry` and payment-hash item `payHash`, given `preimage`. -/
-def Close.valid (c : Close) (s : Spend) (expiry : Nat) (payHash preimage : Item) : Bool :=
-  run (c.ctx s expiry) (c.script s expiry payHash) (c.witness s preimage)
+def Close.valid (c : Close) (s : Spend) (expiry : Nat) (payHash preimage : Item)
+    (agg : Bool := false) : Bool :=
+  run (c.ctx s expiry agg) (c.script s expiry payHash) (c.witness s expiry preimage)
 
 /-! ### simple-taproot channels: tapscript leaves (script path); the funding
     output (MuSig2) and the anchors are key-path spends and stay outside the model -/
@@ -180,22 +199,26 @@ def Close.tapScript (c : Close) (s : Spend) (cltv : Nat) (payHash : Item) : Opti
 
 /-- witness below leaf script and control block (Schnorr, SIGHASH_DEFAULT for
     our signature, SINGLE|ANYONECANPAY for the peer's second-level signature) -/
-def Close.tapWitness (c : Close) (s : Spend) (preimage : Item) : List Item :=
-  let mine := Item.sig (c.signer s) 0 true
-  let peerHtlc := Item.sig c.remoteHtlcKey sigHashSingleAnyoneCanPay true
+def Close.tapWitness (c : Close) (s : Spend) (expiry : Nat) (preimage : Item) : List Item :=
+  let mine := Item.sig (c.signer s) sigHashDefault .final
+  let peerHtlc := Item.sig c.remoteHtlcKey sigHashSingleAnyoneCanPay (c.peerSigOver s expiry)
   match s with
   | .htlcTimeoutTx => [peerHtlc, mine]
   | .htlcSuccessTx => [peerHtlc, mine, preimage]
   | .htlcClaim => [mine, preimage]
   | _ => [mine]
 
-def Close.tapCtx (c : Close) (s : Spend) (expiry : Nat) : Ctx :=
-  { version := 2, sequence := c.sequence s, lockTime := c.lockTime s expiry, tapscript := true }
+def Close.tapCtx (c : Close) (s : Spend) (expiry : Nat) (agg : Bool := false) : Ctx :=
+  { version := 2, sequence := c.sequence s, lockTime := c.lockTime s expiry, tapscript := true,
+    aggregated := agg }
 
-def Close.tapValid (c : Close) (s : Spend) (expiry : Nat) (payHash preimage : Item) : Bool :=
+/-- script-path spends only; the key-path spends (`tapScript = none`: MuSig2
+    funding output, anchors) are outside the symbolic model (real engine only). -/
+def Close.tapValid (c : Close) (s : Spend) (expiry : Nat) (payHash preimage : Item)
+    (agg : Bool := false) : Bool :=
   match c.tapScript s expiry payHash with
-  | some sc => run (c.tapCtx s expiry) sc (c.tapWitness s preimage)
-  | none => true
+  | some sc => run (c.tapCtx s expiry agg) sc (c.tapWitness s expiry preimage)
+  | none => false
 
 /-! ### value claimable (dust rule of `HtlcIsDust` / `extractHtlcResolutions`) -/
 
@@ -222,5 +245,49 @@ def htlcHasOutput (w : Weights) (ct : ChanType) (feePerKw dust : Nat) (incoming 
   let amt := amtMsat / 1000
   let fee := htlcFee w ct feePerKw incoming localCommit
   decide (fee ≤ amt ∧ dust ≤ amt - fee)
+
+/-! ### an abstract commitment and the value our resolutions cover -/
+
+structure Htlc where
+  incoming : Bool
+  amtMsat : Nat
+deriving Repr, Inhabited
+
+/-- A commitment from our point of view: our balance on it (msat, after fees),
+    its fee rate, the dust limit of its owner and the HTLCs it carries. -/
+structure Commitment where
+  localCommit : Bool
+  ownMsat : Nat
+  feePerKw : Nat
+  dust : Nat
+  htlcs : List Htlc
+deriving Repr, Inhabited
+
+def sumMap (f : Htlc → Nat) : List Htlc → Nat
+  | [] => 0
+  | h :: t => f h + sumMap f t
+
+/-- value (sat) of our to-self output, claimed by the CommitResolution; trimmed below dust -/
+def Commitment.selfClaim (cm : Commitment) : Nat :=
+  if cm.dust ≤ cm.ownMsat / 1000 then cm.ownMsat / 1000 else 0
+
+/-- value (sat) claimed by the resolution of one HTLC (extractHtlcResolutions skips dust HTLCs) -/
+def Commitment.htlcClaim (w : Weights) (ct : ChanType) (cm : Commitment) (h : Htlc) : Nat :=
+  if htlcHasOutput w ct cm.feePerKw cm.dust h.incoming cm.localCommit h.amtMsat
+  then h.amtMsat / 1000 else 0
+
+/-- total value (sat) of the commitment outputs covered by our resolutions -/
+def Commitment.claimable (w : Weights) (ct : ChanType) (cm : Commitment) : Nat :=
+  cm.selfClaim + sumMap (cm.htlcClaim w ct) cm.htlcs
+
+/-- what we are owed: balance plus every HTLC (offered ones time out back to us,
+    received ones are claimed with the preimage), in msat -/
+def Commitment.dueMsat (cm : Commitment) : Nat :=
+  cm.ownMsat + sumMap (·.amtMsat) cm.htlcs
+
+/-- the most (sat) that can be lost to dust trimming and msat truncation -/
+def Commitment.lossBound (w : Weights) (ct : ChanType) (cm : Commitment) : Nat :=
+  max 1 cm.dust +
+    sumMap (fun h => max 1 (cm.dust + htlcFee w ct cm.feePerKw h.incoming cm.localCommit)) cm.htlcs
 
 end LndModel.C05
